@@ -17,7 +17,11 @@ Engine `taint`:
      driver on every dumped graph;
  (4) the real sink set (a local variable of the pass; the harness prints a transcription):
      sink_consistency (real CS0008 reports vs printed set), the sink probes of lib/c09probe.py
-     (each sink kind in isolation; controls), and a digest of the transcribed source lines."""
+     (each sink kind in isolation; controls);
+ (5) branch regions (third audit): the mirror Model.BranchRegion computes get_true_branch / get_false_branch itself and is
+     compared with the real regions; the decidable control-dependence closure Spec.CtlDep.ctl_closed_b (hypothesis of
+     C09_noninterference_with_implicit_flows) is evaluated on every dumped graph, on the mirror's AND on the real set of names
+     tainted by an input/output signal: a region computed too small is reported with the definition as failing input."""
 import concurrent.futures
 import json
 import os
@@ -29,8 +33,10 @@ import c09gen
 import c09sem
 import c09probe
 
+import re
+GENERATED_NAME = re.compile(r"^anon_var_\d+_\d+$")
 VARIABLE_KINDS = ("unusedvar", "unusedparam", "varnse", "paramnse")
-SECTIONS = ("universe", "taint", "closure", "cons", "ccl", "constrained", "defs", "decls", "sinks", "findings")
+SECTIONS = ("branches", "universe", "taint", "closure", "cons", "ccl", "constrained", "defs", "decls", "sinks", "bset", "findings")
 CORPUS = os.path.join(common.VERIF, "corpus", "C09")
 MODEL_MODE = os.environ.get("C09_MODEL_MODE", "new")     # "old": the mirror of the code before the sink repair
 
@@ -85,6 +91,18 @@ def kf_ssa_key_collision(cfg_sx):
             return True
         seen[key] = (n, s)
     return False
+
+
+def declared_types(cfg_sx):
+    """displayed name -> declared type (`local`, `sigin`, `sigout`, `sigint`, `component`, ..) of the dumped cfg; a name
+    declared with several types (shadowing) is `local` if any of them is."""
+    out = {}
+    for sec in cfg_sx[1:]:
+        if isinstance(sec, list) and sec and sec[0] == "decls":
+            for d in sec[1:]:
+                n, t = sexp.unhex(d[0][1]), d[1]
+                out[n] = "local" if (t == "local" or out.get(n) == "local") else t
+    return out
 
 
 def findings_of(res_sx):
@@ -156,13 +174,18 @@ def sink_consistency(res_sx):
 
 def oracle_one(args):
     """args = (prog, findings, seed, nval, nrep) -> (list of (finding, verdict dict | None | 'unmapped' | 'signal'), runs)."""
-    prog, findings, seed, nval, nrep = args
+    prog, findings, seed, nval, nrep, types = args
     c09gen.render(prog)          # (re)computes spans and ids
     out = []
     claims, owners = [], []
     for f in findings:
         code, kind, name, s, e = f
         if kind not in VARIABLE_KINDS:
+            continue
+        if kind in ("unusedvar", "varnse") and types.get(name, "local") != "local":
+            # the flagged name is declared as a signal or a (possibly anonymous) component of the graph:
+            # outside the property, which speaks of locals and parameters
+            out.append((f, "signal" if types[name].startswith("sig") else "component"))
             continue
         if kind in ("unusedparam", "paramnse"):
             if name not in prog["params"]:
@@ -172,6 +195,12 @@ def oracle_one(args):
             owners.append(f)
         else:
             sts = c09sem.find_assignments(prog, name, int(s), int(e)) if s != "-" else []
+            if not sts and GENERATED_NAME.match(name):
+                # a local introduced by the desugarer (the counter of an anonymous component in a loop): not a name of
+                # the source program, so the source-level oracle cannot perturb it. Counted as `(generated) <kind>`;
+                # such claims are covered by the correspondence and the SSA-level theorems only.
+                out.append((f, "generated"))
+                continue
             if not sts:
                 if s != "-" and c09sem.find_signal_assignments(prog, name, int(s), int(e)):
                     out.append((f, "signal"))      # a claim about a signal: outside the property
@@ -179,7 +208,10 @@ def oracle_one(args):
                     out.append((f, "unmapped"))
                 continue
             for st in sts:
-                claims.append(lambda v, st=st: ("stmt", st[-1]["id"], v))
+                if st[0] == "tupledecl":       # one span, several names: perturb the flagged name only
+                    claims.append(lambda v, st=st, name=name: ("stmt", (st[-1]["id"], name), v))
+                else:
+                    claims.append(lambda v, st=st: ("stmt", st[-1]["id"], v))
                 owners.append(f)
     verdicts, runs = c09sem.check_program(prog, claims, random.Random(seed), nval, nrep)
     done = {}
@@ -327,7 +359,7 @@ def evaluate(ctx, progs, nval, nrep):
     HARNESS_BIN = common.build_harness("taint")
     MODEL_BIN = common.build_model("taint")
     lap("builds")
-    lines = [p["source"].encode().hex() for p in progs]
+    lines = [c09gen.wire_line(p) for p in progs]
     impl = common.run_lines(HARNESS_BIN, [], lines, shards=common.NPROC, timeout=1500)
     if len(impl) != len(lines):
         raise common.BuildError("harness taint: %d outputs for %d inputs" % (len(impl), len(lines)), "")
@@ -342,8 +374,11 @@ def evaluate(ctx, progs, nval, nrep):
             sx = sexp.parse(out)
             parsed[i] = sx
             ok_idx.append(i)
-            model_in.append(MODEL_MODE + " " + sexp.show(sx[1]) + " " + sexp.show(sx[2])
-                            + (" " + sexp.show(sx[4]) if len(sx) > 4 else ""))
+            # the model gets the graph (and the dominator certificate of the SSA validator) only: the branch
+            # regions sx[2] of the real Cfg are COMPARED with the ones the mirror computes (section `branches`)
+            real_b = [sec for sec in sx[3][1:] if sec[0] == "bset"]
+            model_in.append(MODEL_MODE + " " + sexp.show(sx[1]) + (" " + sexp.show(sx[4]) if len(sx) > 4 else "")
+                            + (" " + sexp.show(real_b[0]) if real_b else ""))
     model = common.run_lines(MODEL_BIN, [], model_in, shards=common.NPROC, timeout=1500)
     if len(model) != len(model_in):
         raise common.BuildError("model taint: %d outputs for %d inputs" % (len(model), len(model_in)), "")
@@ -352,8 +387,12 @@ def evaluate(ctx, progs, nval, nrep):
     wf_fail = []
     ssa_fail = []
     sink_incons = []
+    ctl_fail = []
+    ctl_pairs = 0
+    dfmax = 0
     for i, mo in zip(ok_idx, model):
         ci = canon_result(parsed[i][3])
+        ci["branches"] = sorted(sexp.show(e) for e in parsed[i][2][1:])
         try:
             cm = canon_result(sexp.parse(mo))
             if cm.pop("wf", None) != ["1"]:
@@ -363,6 +402,17 @@ def evaluate(ctx, progs, nval, nrep):
             ud, ssa = cm.pop("ud", None), cm.pop("ssa", None)
             if ud != ["1"] or ssa != ["1"]:
                 ssa_fail.append({"source": progs[i]["source"], "nodup_v_all_defs": ud, "ssa_check": ssa})
+            # hypothesis of C09_noninterference_with_implicit_flows: the names tainted by an input/output signal are
+            # closed under control dependence (Spec.CtlDep.ctl_closed_b), evaluated on this graph
+            ctl, ctlreal, pairs = cm.pop("ctl", None), cm.pop("ctlreal", None), cm.pop("ctlpairs", ["0"])
+            ctl_pairs += int(pairs[0])
+            dfm = cm.pop("dfmax", None)
+            if dfm and dfm[0].isdigit():
+                dfmax = max(dfmax, int(dfm[0]))
+            if ctl != ["1"] or ctlreal != ["1"]:
+                ctl_fail.append({"source": progs[i]["source"], "prog": strip(progs[i]), "ctl_closed_b_on_mirror": ctl,
+                                 "ctl_closed_b_on_real_tainted_set": ctlreal, "real_regions": ci["branches"],
+                                 "mirror_regions": cm.get("branches"), "real_tainted_by_exported": ci.get("bset")})
         except Exception:
             cm = {"model-output": [mo[:200]]}
         bad = sink_consistency(parsed[i][3])
@@ -382,7 +432,7 @@ def evaluate(ctx, progs, nval, nrep):
         if fs:
             jobs.append((i, fs))
     seeds = [ctx.rng.randrange(1 << 30) for _ in jobs]
-    args = [(strip(progs[i]), fs, sd, nval, nrep) for (i, fs), sd in zip(jobs, seeds)]
+    args = [(strip(progs[i]), fs, sd, nval, nrep, declared_types(parsed[i][1])) for (i, fs), sd in zip(jobs, seeds)]
     with concurrent.futures.ProcessPoolExecutor(max_workers=common.NPROC) as ex:
         verdicts = list(ex.map(oracle_one, args, chunksize=max(1, len(args) // (4 * common.NPROC) + 1)))
     lap("oracle")
@@ -393,15 +443,21 @@ def evaluate(ctx, progs, nval, nrep):
         for f, v in vs:
             claims += 1
             kinds[f[1]] = kinds.get(f[1], 0) + 1
-            if v == "signal":
+            if v in ("signal", "component", "generated"):
                 claims -= 1
                 kinds[f[1]] -= 1
-                kinds["(signal) " + f[1]] = kinds.get("(signal) " + f[1], 0) + 1
+                kinds["(%s) %s" % (v, f[1])] = kinds.get("(%s) %s" % (v, f[1]), 0) + 1
             elif v == "unmapped":
                 unmapped.append({"source": progs[i]["source"], "finding": f})
             elif v:
                 failing.append({"index": i, "source": progs[i]["source"], "prog": strip(progs[i]), "finding": list(f),
                                 "oracle": v, "kf_ssa_key_collision": kf_ssa_key_collision(parsed[i][1])})
+    # findings the harness could not classify (kind `other`): nobody judges them
+    unclassified = []
+    for i in ok_idx:
+        for f in findings_of(parsed[i][3]):
+            if f[1] not in VARIABLE_KINDS + ("unusedsig", "unconstrained"):
+                unclassified.append({"source": progs[i]["source"], "finding": list(f)})
     # corpus / probe expectations
     corpus_fail = []
     control_fail = []
@@ -424,27 +480,33 @@ def evaluate(ctx, progs, nval, nrep):
     return {"status": status, "ok": len(ok_idx), "disagreements": disagreements, "failing": failing, "unmapped": unmapped,
             "claims": claims, "claim_kinds": kinds, "oracle_runs": oracle_runs, "programs_with_claims": len(jobs), "corpus_fail": corpus_fail, "wf_fail": wf_fail,
             "ssa_fail": ssa_fail, "sink_incons": sink_incons, "control_fail": control_fail,
+            "ctl_fail": ctl_fail, "ctl_pairs": ctl_pairs, "unclassified": unclassified, "dfmax": dfmax,
             "parsed": parsed, "impl": impl}
 
 
 def strip(prog):
-    return {k: prog[k] for k in ("kind", "name", "params", "body", "sig_in")}
+    d = {k: prog[k] for k in ("kind", "name", "params", "body", "sig_in")}
+    if prog.get("helpers"):
+        d["helpers"] = True
+    return d
 
 
 BATCH = 2500
 
 
 def merge(acc, res, base, progs, keep_samples):
-    for k in ("ok", "claims", "programs_with_claims", "oracle_runs"):
+    for k in ("ok", "claims", "programs_with_claims", "oracle_runs", "ctl_pairs"):
         acc[k] = acc.get(k, 0) + res[k]
     for k in ("status", "claim_kinds"):
         d = acc.setdefault(k, {})
         for a, b in res[k].items():
             d[a] = d.get(a, 0) + b
-    for k in ("disagreements", "failing", "unmapped", "corpus_fail", "wf_fail", "ssa_fail", "sink_incons", "control_fail"):
+    for k in ("disagreements", "failing", "unmapped", "corpus_fail", "wf_fail", "ssa_fail", "sink_incons", "control_fail",
+              "ctl_fail", "unclassified"):
         acc.setdefault(k, []).extend(res[k][:50])
-    for k in ("ssa_fail", "sink_incons", "control_fail", "corpus_fail"):
+    for k in ("ssa_fail", "sink_incons", "control_fail", "corpus_fail", "ctl_fail", "unclassified", "wf_fail"):
         acc["n_" + k] = acc.get("n_" + k, 0) + len(res[k])
+    acc["dfmax"] = max(acc.get("dfmax", 0), res["dfmax"])
     acc["n_disagreements"] = acc.get("n_disagreements", 0) + len(res["disagreements"])
     acc["n_failing"] = acc.get("n_failing", 0) + len(res["failing"])
     sample = acc.setdefault("sample", [])
@@ -495,6 +557,20 @@ def finish(ctx, proofs, res, feats, alph, nval, nrep):
         ctx.violation("expectation: %s: %s" % (c["corpus"], c["problem"]),
                       {"input": c.get("source"), "prog": c.get("prog"), "impl": c["problem"],
                        "spec": "corpus expectation / sink probe: no claim about a value that reaches an effect"})
+    # the names the REAL analysis finds tainted by an input/output signal are not closed under control dependence
+    # (Spec.CtlDep): a branch region misses a block whose execution the branch decides. The program is the input.
+    for c in res["ctl_fail"][:3]:
+        ctx.violation("implicit flow missed: on this definition the set of names that the real taint analysis finds tainted by an input "
+                      "or output signal is not closed under control dependence (Spec.CtlDep.ctl_closed_b = %s on the real set, %s on the "
+                      "mirror's): a name written in a block whose execution is decided by a branch on a tainted condition is not tainted "
+                      "(a branch region computed too small, or a read of the condition / of a tainting assignment not recorded); "
+                      "hypothesis of C09_noninterference_with_implicit_flows unmet (%d definitions)"
+                      % (c["ctl_closed_b_on_real_tainted_set"], c["ctl_closed_b_on_mirror"], res["n_ctl_fail"]),
+                      {"input": c["source"], "prog": c["prog"],
+                       "impl": {"get_true_branch/get_false_branch": c["real_regions"], "tainted_by_exported": c["real_tainted_by_exported"]},
+                       "spec": {"what": "every name written in a block that is control dependent (post-dominance sense, Spec.CtlDep.ctl_dependent) "
+                                        "on a branch whose non-constant condition reads a name tainted by an input/output signal is tainted by one",
+                                "mirror_regions": c["mirror_regions"]}})
     degenerate = res["ok"] < 0.5 * res["generated"] or res["programs_with_claims"] < 0.2 * max(1, res["ok"])
     if not ctx.violations:
         if res["disagreements"]:
@@ -518,11 +594,11 @@ def finish(ctx, proofs, res, feats, alph, nval, nrep):
                           "run_side_effect_analysis on %d definitions (the real sink set changed)" % res["n_sink_incons"],
                           {"broken": "transcription of the sink set (side_effect_analysis.rs:254-339) vs the real CS0008 reports",
                            "first": res["sink_incons"][0]}, no_input=True)
-        elif sink_code_digest() != SINK_CODE_SHA256:
-            ctx.violation("the statements of run_side_effect_analysis that compute the sink set (%s, `%s` .. `%s`) differ from the ones "
-                          "harness/src/bin/taint.rs transcribes; the printed sink set is stale" % (SINK_CODE_FILE, SINK_CODE_FROM, SINK_CODE_TO),
-                          {"broken": "transcription of the sink set in harness/src/bin/taint.rs (pinned by SINK_CODE_SHA256 in lib/props/C09.py)",
-                           "digest_now": sink_code_digest(), "digest_transcribed": SINK_CODE_SHA256}, no_input=True)
+        elif res["unclassified"]:
+            ctx.violation("%d reports of the side-effect pass could not be classified by code and location (kind `other`): nobody judges them; "
+                          "first: %s" % (res["n_unclassified"], res["unclassified"][0]["finding"]),
+                          {"broken": "classification of the reports in harness/src/bin/taint.rs::finding (by report code, label location, "
+                                     "definitions / declarations of the cfg)", "first": res["unclassified"][0]}, no_input=True)
         elif res["control_fail"]:
             ctx.violation("sink probes: %d control programs (value reaches no effect) are no longer flagged: the real sink set or taint "
                           "relation grew; first: %s: %s" % (res["n_control_fail"], res["control_fail"][0]["corpus"], res["control_fail"][0]["problem"]),
@@ -556,10 +632,18 @@ def finish(ctx, proofs, res, feats, alph, nval, nrep):
         "alphabets": alph,
         "disagreements_model_vs_impl": res["n_disagreements"],
         "false_claims_found": res["n_failing"],
-        "hypothesis_ssa_wf_b_false_on": len(res["wf_fail"]),
+        "hypothesis_ssa_wf_b_false_on": res["n_wf_fail"],
         "hypothesis_ssa_check_or_unique_defs_false_on": res["n_ssa_fail"],
         "sink_transcription_inconsistent_with_real_reports_on": res["n_sink_incons"],
-        "sink_code_digest_matches_transcription": sink_code_digest() == SINK_CODE_SHA256,
+        # NOT a verdict any more (third audit: it fired on every token edit of an equivalent rewrite). The transcription is tied
+        # behaviourally: sink_consistency on every definition, the sink probes, and the findings/sinks sections of the correspondence.
+        "sink_code_digest_matches_transcription_informational": sink_code_digest() == SINK_CODE_SHA256,
+        "reports_unclassified_kind_other": res["n_unclassified"],
+        "hypothesis_ctl_closed_false_on": res["n_ctl_fail"],
+        "hypothesis_ctl_closed_evaluated_on": res["ok"],
+        "control_dependent_block_pairs_evaluated": res["ctl_pairs"],
+        # the `for end_block in end_blocks` loops of get_true_branch / get_false_branch: largest frontier of a region start block
+        "largest_dominance_frontier_of_a_region_start_block": res["dfmax"],
         "sink_probes": {"programs": alph.get("probe", 0), "expectation_failures_probes_and_corpus": res["n_corpus_fail"],
                         "control_probes_not_flagged": res["n_control_fail"]},
         "open_statements": OPEN_STATEMENTS,
@@ -571,27 +655,50 @@ OPEN_STATEMENTS = [
     "order irrelevance of the HashMap/HashSet iterations is by construction (lists used as sets, every output canonicalised by "
     "Model.Taint.canon) and observed by the correspondence; a theorem `Permutation l l' -> canon l = canon l'` is not stated",
     "SSA correctness of the cfg w.r.t. the source program (property C14) is not part of C09_noninterference: the theorem speaks "
-    "about executions of the SSA cfg; the source-level oracle covers the gap by search (this is how D20 was visible). What IS now "
+    "about executions of the SSA cfg; the source-level oracle covers the gap by search (this is how D20 was visible). What IS "
     "checked inside C09: every dumped graph passes the verified validator SsaCheck.ssa_check (C14's theorems then apply to it)",
-    "`ment_sound` is a hypothesis; that the exact predicate (`ment s = true <-> mentions g s`) is decidable is not proved",
+    "`ment_sound` / `ment_sound_by` is a hypothesis; that the exact predicate (`ment s = true <-> mentions_by g dep s`) is decidable is not proved",
+    "that the mirror of get_true_branch / get_false_branch (Model.BranchRegion.branches_of) makes the tainted set closed under control "
+    "dependence on EVERY graph (`forall g, ctl_closed_b g (exported_sinks g (taint (branches_of g))) = true`) is not proved (it needs the "
+    "structure of lifted graphs: loop headers are control dependent on themselves and are covered only through the phi data edges); "
+    "the closure is evaluated per dumped graph instead (hypothesis of C09_noninterference_with_implicit_flows, on the mirror's and on the "
+    "real tainted set) and an unmet hypothesis is a violation with the definition as failing input",
+    "Model.BranchRegion: no theorem yet that its closure loops never run out of fuel on closed graphs, nor that get_interval equals the "
+    "path-based interval (both follow from Proofs.TaintProofs.closure_exact_refl / fuel_suffices_refl, not instantiated); the mirror is "
+    "tied to cfg.rs by the comparison of every region of every dumped graph (section `branches`)",
 ]
 ASSUMPTIONS = [
-    "get_true_branch / get_false_branch (dominance-frontier intervals) are an input of the model, dumped from the real Cfg for every "
-    "branch block; their exactness is property C15's; the non-interference theorem does not depend on them (conditions are sinks)",
+    "get_true_branch / get_false_branch / get_interval are MIRRORED (Model.BranchRegion over Model.Dom's dominance frontier) since the "
+    "third audit; the regions dumped from the real Cfg for every branch block are compared with the mirror's on every definition "
+    "(section `branches` of the correspondence) and are no longer an input of the model",
+    "reading of the property text: `a constraint mentioning such a signal` INCLUDES control dependence (a constraint mentions an "
+    "input/output signal if it uses a name whose value depends on one by data or control flow); this is the reading under which the "
+    "property's own `branch region computed too small` risk produces a false claim. Spec.CtlDep (post-dominance control dependence), "
+    "C09_noninterference_with_implicit_flows and the oracle (lib/c09sem.py: values assigned - or assignable - under a branch / loop "
+    "whose condition depends on an exported signal carry the dependence) use this reading; C09_noninterference is the data-only "
+    "statement that holds for arbitrary regions",
+    "an input port of a sub-component (`c.in <== x`) is not an `input or output signal` of the analysed template: the assignment is an "
+    "effect only as a constraint that mentions an input/output signal of the template; what the sub-component does with it is visible "
+    "through `c.out` (an uninterpreted deterministic function of the template, its arguments and every port value assigned so far)",
+    "claims about names the desugarer generated (`anon_var_<n>_<n>`, the counter of an anonymous component in a loop) are counted as "
+    "`(generated) <kind>` and not judged by the source-level oracle (they are not names of the source); claims about signals and "
+    "components likewise (`(signal)`, `(component)`): compared with the mirror, covered by the SSA-level theorems, outside the oracle",
     "the type knowledge of a variable node equals the declared type of its (name, suffix) in the SSA cfg's declarations (observed by the "
     "correspondence; the IR dump carries no type per expression node)",
     "the sink set of run_side_effect_analysis is a local variable: the harness recomputes it from the public taint/constraint API "
-    "(transcription of side_effect_analysis.rs:254-339, pinned by a digest of that text); the findings are the real reports "
-    "(side_effect_analysis is a private module, reached through get_analysis_passes and filtered by code). The transcription is tied to "
-    "the real pass on the implementation side by sink_consistency (real CS0008 report for D <=> multi_step_taint(D) misses the printed "
-    "sink set) and by the sink probes of lib/c09probe.py (each sink kind in isolation; controls that must stay flagged)",
+    "(transcription of side_effect_analysis.rs:254-339); the findings are the real reports (side_effect_analysis is a private module, "
+    "reached through get_analysis_passes and filtered by code). The transcription is tied to the real pass on the implementation side by "
+    "sink_consistency (real CS0008 report for D <=> multi_step_taint(D) misses the printed sink set) and by the sink probes of "
+    "lib/c09probe.py (each sink kind in isolation; controls that must stay flagged). The sha256 of the transcribed text is recorded in "
+    "the evidence but is no longer a verdict (it fired on every equivalent rewrite)",
+    "reports are classified by report code and by what their primary label points at (a definition of the taint analysis, a signal "
+    "declaration, the parameter list), not by the wording of the message; a report that cannot be classified is counted and is a violation",
     "the location of a finding is proved (C09_location_is_unique_definition) to be the meta of the only assignment to the flagged SSA name "
     "in the dumped graph, under SsaCheck.ssa_check, which the model driver evaluates on every dumped graph with the implementation's "
     "dominator tree as certificate; that the meta of an SSA statement is the span of the source statement it came from is observed "
     "(the oracle maps every claim to a source assignment by name and span; an unmappable claim is a violation), not proved",
     "oracle semantics: operators are total (out-of-range reads yield 0, failing asserts are events, no run-time abort), `ext` is an "
-    "uninterpreted deterministic function, runs are cut after 600 steps; a constraint 'mentions' an input/output signal if it reads "
-    "one directly or reads a local/intermediate signal whose current value was computed from one (data dependence)",
+    "uninterpreted deterministic function, runs are cut after 400 steps",
     "claims about signals (CS0006 unused signal, CA01) are mirrored and compared but outside the property (it speaks of locals and parameters)",
 ]
 
